@@ -23,6 +23,23 @@ CHECKS = {
         "names {a,b,c,m}, durations {100,200} ms, intervals {0.25,0.5} s; time by representative points.",
    technique="explicit-state BFS of the implementation with a reference model (replay + fork snapshots)",
    ref="3/C13"),
+ "C03": dict(cat="model_checking",
+   text="Explicit-state BFS over switch reports (raw/logical, duplicates, NO/NC), handler add/remove with hold times "
+        "and time choices on the real SwitchController; reference switch model (state, per-interval pending "
+        "deadlines) compared after every transition, including is_active/is_inactive(ms) and configured events.",
+   note="Trusted: virtual loop, reference model in props/c03.py. Bounds: depth 4-5 (quick) / 6-7 (thorough) per switch, "
+        "hold times {0,100,200} ms; ignore_window_ms>0 only gets the weaker last-event check.",
+   technique="explicit-state BFS of the implementation with a reference model (replay + fork snapshots)",
+   ref="3/C03"),
+ "C02": dict(cat="model_checking",
+   text="Explicit-state BFS over handler scenarios (sync, waiting, self-clearing, async coroutine, nested queue event) "
+        "and every order of clears/resolves/second posts until the frontier empties; exhaustive enumeration of "
+        "relay/boolean handler lists; BFS over a use_wait_queue mode started by a queue event with waiting handlers "
+        "on the outer and on the mode's own queue event.",
+   note="Trusted: virtual loop, monitors in props/c02.py. Bounds: <=3/4 handlers per queue event, one nested and one "
+        "concurrent queue event; relay/boolean lists <=4/5 handlers over 6 return values.",
+   technique="explicit-state BFS of the implementation (replay + fork snapshots) + exhaustive enumeration",
+   ref="3/C02"),
 }
 NOT_YET = "check not built yet in this revision (planned, see DESIGN.md section 7)"
 
